@@ -187,8 +187,12 @@ def guards_strict(repo: Repo, rep: Report) -> None:
         if isinstance(n, ast.Call) and isinstance(n.func, ast.Attribute) and n.func.attr in ("append", "add") and norm(n.func.value) in ("ret", "adjacent_pairs"):
             sites.append((n, f))
 
-    G.Walker(on_expr=on_expr).run_function(fn)
-    if len(sites) < 6:
+    def on_nested(nfn: ast.FunctionDef, _f: G.Facts) -> None:
+        # a local helper that proposes updates (e.g. one function for the four move directions): its own guards must suffice
+        G.Walker(on_expr=on_expr, on_nested=on_nested).run_function(nfn)
+
+    G.Walker(on_expr=on_expr, on_nested=on_nested).run_function(fn)
+    if len(sites) < 3:
         raise AnalysisError(f"candidates(): only {len(sites)} update sites found")
     nb = L.sym("num_blocks")
     kinds = {"merge": 0, "split": 0, "move": 0}
@@ -251,7 +255,7 @@ def guards_strict(repo: Repo, rep: Report) -> None:
                        f"the connectivity test is about the cell that is removed ({moved})" if not conn else "the cell added to the receiver is the one removed from the donor")
                 rep.finding("SEG-G", SEG, "SegmentationBuilder2D.candidates", f"move guard for {short(call, 70)}",
                             f"a cell move is proposed where the guards do not imply that {why}", call.lineno)
-    if kinds["merge"] < 2 or kinds["split"] < 1 or kinds["move"] < 4:
+    if kinds["merge"] < 1 or kinds["split"] < 1 or kinds["move"] < 1:
         raise AnalysisError(f"candidates(): update kinds found {kinds}")
 
 
